@@ -61,7 +61,7 @@ static void marker_addr6(int m, struct ares_in6_addr *a) {
 //           | "wrongclient:<tag>" | "short" (4 bytes) | "long" (41 bytes)
 std::string build_reply(const Frame &f, const J &st, int pid, std::string &desc) {
   std::string kind = st["kind"].str("ok");
-  char        b[1024];
+  char        b[2048];
   if (kind == "garbage") {
     desc = "\"kind\":\"garbage\",\"parse\":0,\"len\":5";
     return std::string("\x12\x34\xff\xff\xff", 5);
@@ -95,7 +95,7 @@ std::string build_reply(const Frame &f, const J &st, int pid, std::string &desc)
   ares_dns_record_query_add(rec, qname.c_str(), (ares_dns_rec_type_t)qtype, (ares_dns_class_t)qclass);
   unsigned int ttl = (unsigned int)st["ttl"].num(60);
   int          n   = (int)st["n"].num(1);
-  std::string  ttls;
+  std::string  ttls, recs;
   int          nans = 0;
   if (kind == "ok" || kind == "tc" || kind == "cname" || kind == "badcookie_ok") {
     std::string owner = qname;
@@ -133,6 +133,29 @@ std::string build_reply(const Frame &f, const J &st, int pid, std::string &desc)
       }
       if (!ttls.empty()) ttls += ",";
       ttls += std::to_string(t_i);
+      if (qtype == ARES_REC_TYPE_A || qtype == ARES_REC_TYPE_AAAA || qtype == ARES_REC_TYPE_PTR) {
+        if (!recs.empty()) recs += ",";
+        recs += "{\"m\":" + std::to_string(m) + ",\"ttl\":" + std::to_string(t_i) + ",\"f\":" + (qtype == ARES_REC_TYPE_AAAA ? "6" : (qtype == ARES_REC_TYPE_A ? "4" : "0")) + "}";
+      }
+      nans++;
+    }
+    if (st["chaos"].num() && (qtype == ARES_REC_TYPE_A || qtype == ARES_REC_TYPE_AAAA)) {
+      // an address record of a foreign class in the answer section: must not be reported
+      ares_dns_rr_t *rr = nullptr;
+      int            m  = pid * 8 + 7;
+      if (qtype == ARES_REC_TYPE_AAAA) {
+        ares_dns_record_rr_add(&rr, rec, ARES_SECTION_ANSWER, owner.c_str(), ARES_REC_TYPE_AAAA, ARES_CLASS_CHAOS, ttl);
+        struct ares_in6_addr a6;
+        marker_addr6(m, &a6);
+        ares_dns_rr_set_addr6(rr, ARES_RR_AAAA_ADDR, &a6);
+      } else {
+        ares_dns_record_rr_add(&rr, rec, ARES_SECTION_ANSWER, owner.c_str(), ARES_REC_TYPE_A, ARES_CLASS_CHAOS, ttl);
+        struct in_addr a4;
+        marker_addr4(m, &a4);
+        ares_dns_rr_set_addr(rr, ARES_RR_A_ADDR, &a4);
+      }
+      if (!ttls.empty()) ttls += ",";
+      ttls += std::to_string(ttl);
       nans++;
     }
   }
@@ -190,9 +213,9 @@ std::string build_reply(const Frame &f, const J &st, int pid, std::string &desc)
   ares_dns_record_destroy(rec);
   snprintf(b, sizeof b,
            "\"kind\":\"%s\",\"parse\":1,\"qid\":%d,\"qt\":%d,\"qc\":%d,\"rcode\":%d,\"tc\":%d,\"opt\":%d,\"an\":%d,\"ttls\":[%s],"
-           "\"soa\":%d,\"soattl\":%u,\"soamin\":%u,\"clen\":%zu,\"forseq\":%d,\"xttls\":[%s],",
+           "\"soa\":%d,\"soattl\":%u,\"soamin\":%u,\"clen\":%zu,\"forseq\":%d,\"xttls\":[%s],\"recs\":[%s],",
            kind.c_str(), qid, qtype, qclass, (int)rcode, (flags & ARES_FLAG_TC) ? 1 : 0, opt ? 1 : 0, nans, ttls.c_str(), soa, soattl,
-           soamin, cookie.size(), f.seq, xttls.c_str());
+           soamin, cookie.size(), f.seq, xttls.c_str(), recs.c_str());
   desc = b;
   desc += "\"ck\":" + jstr(cookie.size() >= 8 ? cookie.substr(0, 8) : cookie) + ",";
   desc += "\"sk\":" + jstr(cookie.size() > 8 ? cookie.substr(8) : "") + ",";
